@@ -254,6 +254,9 @@ func (c *Case) realRequest(ctx context.Context, base, id string, body io.Reader)
 	if c.Shape == "upbidi" {
 		req.Header.Set("Accept", "application/json")
 	}
+	if c.Accept != "" && c.T == "http" {
+		req.Header.Set("Accept", c.acceptType())
+	}
 	if c.T == "grpc" {
 		req.Header.Set("Te", "trailers")
 	}
